@@ -40,6 +40,11 @@ def installation(gen, rnd):
     if gen == 4 and sum(zp) == 0:
         zp[0] = 1  # AT4 without any group: handshake behaviour is C09's subject
     inst = C.default_installation(gen, n_acs, tuple(zp), new_format=rnd.random() < 0.7)
+    if rnd.random() < 0.3:
+        inst["names_key"] = rnd.choice([3, 5, 7, 11])    # names listed in another order
+    if rnd.random() < 0.3 and sum(zp) + 2 * n_acs <= 16:
+        # zone numbers with unused numbers in front of an air-conditioner's zones
+        C.spread_zones(inst, [rnd.randint(0, 2) for _ in range(n_acs)])
     if rnd.random() < 0.4:
         # AC numbers with gaps / not starting at 0
         C.renumber_acs(inst, sorted(rnd.sample(range(4 if gen == 4 else 8), n_acs)))
